@@ -236,4 +236,9 @@ MUTANTS = [
  dict(id="C14", name="option_symbol_matched_by_prefix", edits=[(PC, "    if(!strcmp(m.value, value))\n    {\n        result = atoi(m.title+4);", "    if(!strncmp(m.value, value, strlen(m.value)))\n    {\n        result = atoi(m.title+4);")]),
  dict(id="C03", name="wide_variadic_message_on_the_heap", edits=[(RC, "    STACKALLOC(rtosc_arg_t, args, nargs);\n    rtosc_va_list_t ap2;\n    va_copy(ap2.a, ap);\n    rtosc_v2args(args, nargs, arguments, &ap2);", "    rtosc_arg_t args_fixed[32];\n    rtosc_arg_t *args = nargs > 32 ? (rtosc_arg_t*)malloc(nargs*sizeof(rtosc_arg_t)) : args_fixed;\n    rtosc_va_list_t ap2;\n    va_copy(ap2.a, ap);\n    rtosc_v2args(args, nargs, arguments, &ap2);\n    if(nargs > 32) { size_t r_ = rtosc_amessage(buffer,len,address,arguments,args); free(args); return r_; }")]),
  dict(id="C12", name="toggle_arrays_of_mixed_first_type_differ", edits=[("src/cpp/arg-val-cmp.c", "               && !(rtosc_av_arr_type(_lhs) == 'F' && rtosc_av_arr_type(_rhs) == 'T'))\n", "               && !(rtosc_av_arr_type(_lhs) == 'F' && rtosc_av_arr_type(_lhs) == 'T'))\n")]),
+ # ---- the apropos look-up serves four properties
+ dict(id="C13", name="apropos_first_prefix_wins", edits=[(PC, '    for(const Port &port: ports)\n        if(*path && rtosc_match_path(port.name, path, NULL))\n            return &port;\n    for(const Port &port: ports)\n        if(*path && strstr(port.name, path)==port.name)\n            return &port;\n', '    for(const Port &port: ports)\n        if(*path && (strstr(port.name, path)==port.name ||\n                    rtosc_match_path(port.name, path, NULL)))\n            return &port;\n')]),
+ dict(id="C19", name="apropos_first_prefix_wins", edits=[(PC, '    for(const Port &port: ports)\n        if(*path && rtosc_match_path(port.name, path, NULL))\n            return &port;\n    for(const Port &port: ports)\n        if(*path && strstr(port.name, path)==port.name)\n            return &port;\n', '    for(const Port &port: ports)\n        if(*path && (strstr(port.name, path)==port.name ||\n                    rtosc_match_path(port.name, path, NULL)))\n            return &port;\n')]),
+ dict(id="C20", name="apropos_first_prefix_wins", edits=[(PC, '    for(const Port &port: ports)\n        if(*path && rtosc_match_path(port.name, path, NULL))\n            return &port;\n    for(const Port &port: ports)\n        if(*path && strstr(port.name, path)==port.name)\n            return &port;\n', '    for(const Port &port: ports)\n        if(*path && (strstr(port.name, path)==port.name ||\n                    rtosc_match_path(port.name, path, NULL)))\n            return &port;\n')]),
+ dict(id="C12", name="apropos_first_prefix_wins", edits=[(PC, '    for(const Port &port: ports)\n        if(*path && rtosc_match_path(port.name, path, NULL))\n            return &port;\n    for(const Port &port: ports)\n        if(*path && strstr(port.name, path)==port.name)\n            return &port;\n', '    for(const Port &port: ports)\n        if(*path && (strstr(port.name, path)==port.name ||\n                    rtosc_match_path(port.name, path, NULL)))\n            return &port;\n')]),
 ]
